@@ -77,19 +77,48 @@ package scanner
 //@   invariant invalid != nil ==> *invalid == old(*invalid)
 //@   decreases len(s.src) - s.offset
 //@
+//@ # invalidSep and scanEscape carry the clauses of the XGo scanner's (scanner/zz_contracts_verif.go): same
+//@ # specification, so the two scanners report the '_' error at the same offset and accept the same escapes (C32)
+//@ pred sepPre(x string) := len(x) >= 2 && x[0] == '0' && (x[1] == 'x' || x[1] == 'X' || x[1] == 'o' || x[1] == 'O' || x[1] == 'b' || x[1] == 'B')
+//@ pred sepHexLit(x string) := len(x) >= 2 && x[0] == '0' && (x[1] == 'x' || x[1] == 'X')
+//@ spec sepStart(x string) int := sepPre(x) ? 2 : 0
+//@ pred sepDigit(x string, c int) := ('0' <= c && c <= '9') || (sepHexLit(x) && (('a' <= c && c <= 'f') || ('A' <= c && c <= 'F')))
+//@ spec sepCls(x string, c int) int := c == '_' ? '_' : (sepDigit(x, c) ? '0' : '.')
+//@ spec sepPrev(x string, i int) int := i == sepStart(x) ? (sepPre(x) ? '0' : '.') : sepCls(x, x[i-1])
+//@ pred sepBad(x string, i int) := (x[i] == '_' && sepPrev(x, i) != '0') || (sepCls(x, x[i]) == '.' && sepPrev(x, i) == '_')
 //@ func invalidSep
 //@   pure
 //@   ensures -1 <= result && result < len(x)
+//@   ensures [sep-none] result == -1 ==> (forall j in sepStart(x)..len(x) :: !sepBad(x, j)) && (len(x) == sepStart(x) || x[len(x)-1] != '_')
+//@   ensures [sep-first] result >= 0 ==> result >= sepStart(x) && x[result] == '_' && (forall j in sepStart(x)..result :: !sepBad(x, j)) &&
+//@           (sepPrev(x, result) != '0' || result == len(x)-1 || sepCls(x, x[result+1]) == '.')
 //@ loop invalidSep#1
-//@   invariant 0 <= i && i <= len(x) && (d == '_' ==> i >= 1)
+//@   invariant sepStart(x) <= i && i <= len(x) && (d == '_' ==> i >= 1)
+//@   invariant [sep-state] d == sepPrev(x, i) && (x1 == 'x' ==> sepHexLit(x)) && (sepHexLit(x) ==> x1 == 'x')
+//@   invariant [sep-prefix] forall j in sepStart(x)..i :: !sepBad(x, j)
 //@   decreases len(x) - i
 //@
+//@ pred escSimple(c int, quote int) := c == 'a' || c == 'b' || c == 'f' || c == 'n' || c == 'r' || c == 't' || c == 'v' || c == '\\' || c == quote
+//@ spec escN(c int) int := ('0' <= c && c <= '7') ? 3 : (c == 'x' ? 2 : (c == 'u' ? 4 : (c == 'U' ? 8 : 0)))
+//@ spec escBase(c int) int := ('0' <= c && c <= '7') ? 8 : 16
+//@ spec escSkip(c int) int := ('0' <= c && c <= '7') ? 0 : 1
+//@ pred escDigitOK(b int, base int) := base == 8 ? ('0' <= b && b <= '7') : (('0' <= b && b <= '9') || ('a' <= b && b <= 'f') || ('A' <= b && b <= 'F'))
 //@ func (*Scanner).scanEscape
 //@   requires inv(s)
 //@   assigns s.ch, s.offset, s.rdOffset, s.lineOffset, s.ErrorCount
 //@   ensures inv(s) && s.offset >= old(s.offset)
+//@   ensures [esc-simple] escSimple(old(s.ch), quote) ==> result && s.offset == old(s.rdOffset)
+//@   ensures [esc-unknown] !escSimple(old(s.ch), quote) && escN(old(s.ch)) == 0 ==> !result && s.offset == old(s.offset)
+//@   ensures [esc-digits] !escSimple(old(s.ch), quote) && escN(old(s.ch)) > 0 ==>
+//@           s.offset <= old(s.offset) + escSkip(old(s.ch)) + escN(old(s.ch)) &&
+//@           (forall k in old(s.offset) + escSkip(old(s.ch))..s.offset :: escDigitOK(s.src[k], escBase(old(s.ch)))) &&
+//@           (result ==> s.offset == old(s.offset) + escSkip(old(s.ch)) + escN(old(s.ch))) &&
+//@           (s.offset < old(s.offset) + escSkip(old(s.ch)) + escN(old(s.ch)) ==> !result && !escDigitOK(s.ch, escBase(old(s.ch))))
 //@ loop (*Scanner).scanEscape#1
 //@   invariant inv(s) && s.offset >= old(s.offset) && n >= 0
+//@   invariant [esc-state] !escSimple(old(s.ch), quote) && escN(old(s.ch)) > 0 && base == escBase(old(s.ch)) &&
+//@           s.offset == old(s.offset) + escSkip(old(s.ch)) + escN(old(s.ch)) - n
+//@   invariant [esc-prefix] forall k in old(s.offset) + escSkip(old(s.ch))..s.offset :: escDigitOK(s.src[k], escBase(old(s.ch)))
 //@   decreases n
 //@
 //@ func (*Scanner).scanRune
@@ -132,6 +161,15 @@ package scanner
 //@   ensures [unit] len(s.unitVal) <= s.offset - old(s.offset) && s.unitVal == string(s.src[s.offset-len(s.unitVal):s.offset])
 //@   ensures [text] result1 == string(s.src[old(s.offset):s.offset-len(s.unitVal)])
 //@   ensures [kind] result0 == token.INT || result0 == token.FLOAT || result0 == token.IMAG || result0 == token.RAT
+//@   # the error clauses of the XGo scanner's scanNumber
+//@   at call error#1 assert [err-radix-point] (prefix == 'o' || prefix == 'b') && s.ch == '.' && arg1 == s.offset
+//@   at call error#2 assert [err-no-digits] digsep & 1 == 0 && arg1 == s.offset
+//@   at call errorf#1 assert [err-e-exponent] (s.ch == 'e' || s.ch == 'E') && prefix != 0 && prefix != '0' && arg1 == s.offset
+//@   at call errorf#2 assert [err-p-exponent] (s.ch == 'p' || s.ch == 'P') && prefix != 'x' && arg1 == s.offset
+//@   at call error#3 assert [err-exponent-digits] ds & 1 == 0 && arg1 == s.offset
+//@   at call error#4 assert [err-hex-needs-p] prefix == 'x' && tok == token.FLOAT && arg1 == s.offset
+//@   at call errorf#3 assert [err-invalid-digit] tok == token.INT && invalid >= 0 && arg1 == invalid
+//@   at call error#5 assert [err-separator] digsep & 2 != 0 && i >= 0 && arg1 == offs + i
 //@
 //@ # interpretLineComment only feeds the line table, which is not modelled: its contract is ASSUMED (listed in evidence)
 //@ trusted (*Scanner).interpretLineComment
